@@ -751,9 +751,8 @@ func (m *mctx) call(c *ast.CallExpr) string {
 		bad("%s on something that is not an environment field", name)
 	}
 	if lean, recv, ok := m.libFunc(c); ok {
-		if recv != nil && m.isRecv(recv) {
-			bad("library method on the receiver")
-		}
+		// a method the receiver gets from an embedded struct (`l.matchHeader(h)` of baseLeaf) may be in the table too: it is then
+		// a function of the receiver's value
 		only := -1
 		if i := strings.LastIndex(lean, "@"); i >= 0 {
 			fmt.Sscanf(lean[i+1:], "%d", &only) // "Name@i": only argument i is passed on (the others are message details)
